@@ -43,7 +43,7 @@ def run(model, res, tier):
     opaque = H.date_opaque(model)
     H.safely(res, 'R1', 'accessors', _accessors, model, res, opaque)
     H.safely(res, 'R2', 'constructors', _constructors, model, res, opaque)
-    _leap_and_tables(model, res)
+    H.safely(res, 'R1', 'leap_and_tables', _leap_and_tables, model, res)
     H.safely(res, 'R5', 'guards', _guards, model, res, opaque, E)
     H.safely(res, 'R6', 'WEEKDAY', _weekday, model, res, opaque, E)
     H.safely(res, 'R7', 'EDATE', _edate, model, res, opaque, E)
@@ -54,7 +54,7 @@ def run(model, res, tier):
     if um:
         H.borrow(res, 'R12', 'date conversion authority', lambda tmp: c13._r1(model, tmp, c, um[-1]))
         H.borrow(res, 'R12', 'date converters', lambda tmp: c13._r2(model, tmp, c, um[-1]))
-    _formats(model, res)
+    H.safely(res, 'R1', 'formats', _formats, model, res)
     keys = []
     for n in ('DATE', 'TIME', 'YEAR', 'MONTH', 'DAY', 'HOUR', 'MINUTE', 'SECOND', 'DAYS', 'DATEDIF', 'EDATE', 'WEEKDAY', 'DATEVALUE', 'TIMEVALUE'):
         m, f = model.registered(n)
@@ -104,7 +104,16 @@ def _accessors(model, res, opaque):
 
 def _constructors(model, res, opaque):
     m, f = model.registered('DATE')
-    outs = _runs(model, 'DATE', lambda: [Aff(1, 0, 'int', 'y'), Sym('int', 'mo'), Sym('int', 'd')], opaque)
+    month_of = {}
+    try:
+        outs = _runs(model, 'DATE', lambda: [Aff(1, 0, 'int', 'y'), Sym('int', 'mo'), Sym('int', 'd')], opaque)
+    except Unmodelled:
+        # code that needs the month as a number (a calendar lookup): one run per month of the year instead
+        outs = []
+        for mo_ in range(1, 13):
+            for o in _runs(model, 'DATE', lambda mo_=mo_: [Aff(1, 0, 'int', 'y'), Const(mo_), Sym('int', 'd')], opaque):
+                month_of[id(o)] = mo_
+                outs.append(o)
     n = 0
     for o in outs:
         if o.imprecise or o.kind != 'return' or not isinstance(o.value, Atom):
@@ -113,7 +122,37 @@ def _constructors(model, res, opaque):
         box, multi = H.box_of(o.notes)
         lo, los, hi, his, excl = box.get('y', [None, False, None, False, set()])
         below = hi is not None and (hi < 1900 or (hi == 1900 and his))
-        ok = v.op == 'datetime' and len(v.args) == 3 and isinstance(v.args[0], Aff) and getattr(v.args[1], 'name', None) == 'mo' and getattr(v.args[2], 'name', None) == 'd'
+        mo_ok = len(v.args) == 3 and (getattr(v.args[1], 'name', None) == 'mo' if id(o) not in month_of else
+                                      (isinstance(v.args[1], Const) and v.args[1].value == month_of[id(o)]))
+        day_ok = len(v.args) == 3 and getattr(v.args[2], 'name', None) == 'd'
+        if not day_ok and len(v.args) == 3 and id(o) in month_of:
+            # a day clamped into the month is the day itself for every valid date - provided the month length used is that of the
+            # year the date is built in:  max(1, min(d, L))  with L >= the length of the month in the constructed year
+            import calendar as _cal
+
+            def clamp_limit(e):
+                if isinstance(e, Atom) and e.op == 'max' and len(e.args) == 2:
+                    a_, b_ = e.args
+                    if isinstance(b_, Const):
+                        a_, b_ = b_, a_
+                    if isinstance(a_, Const) and a_.value == 1:
+                        return clamp_limit(b_)
+                if isinstance(e, Atom) and e.op == 'min' and len(e.args) == 2:
+                    a_, b_ = e.args
+                    if isinstance(a_, Const):
+                        a_, b_ = b_, a_
+                    if getattr(a_, 'name', None) == 'd' and isinstance(b_, Const) and isinstance(b_.value, int):
+                        return b_.value
+                return None
+            L = clamp_limit(v.args[2])
+            if L is not None:
+                mo_ = month_of[id(o)]
+                need = _cal.monthrange(2000, mo_)[1]       # 29 for February
+                if mo_ == 2 and any(isinstance(s_, tuple) and s_ and s_[0] == 'leap' and s_[1] == repr(v.args[0]) and alt_ is False
+                                    for (t_, alt_, s_) in o.notes):
+                    need = 28       # the constructed year itself was found to be a common year
+                day_ok = L >= need
+        ok = v.op == 'datetime' and len(v.args) == 3 and isinstance(v.args[0], Aff) and mo_ok and day_ok
         if ok:
             y = v.args[0]
             want = 1900 if below else 0
@@ -591,6 +630,11 @@ def _datedif(model, res, opaque, E):
                         if lo > hi:
                             feasible = False
                     if not feasible:
+                        continue
+                    # the day comparison itself must be possible within the boxes (end day 31 < start day <= 29 is not)
+                    if day_lt is True and box['ed'][0] >= box['sd'][1]:
+                        continue
+                    if day_lt is False and box['ed'][1] < box['sd'][0]:
                         continue
                     if box['ed'][1] < box['sd'][0]:
                         day_lt = True
